@@ -501,6 +501,12 @@ Proof.
 Qed.
 Lemma strvs_noselect l : flat_map escans (map StrV l) = [].
 Proof. induction l as [|x y IH]; [reflexivity | cbn [map flat_map escans]; exact IH]. Qed.
+(* LineFormatPlanner: format('..', labels['a'], ...) reads no table *)
+Lemma tpl_sql_noselect ns : escans (LogqlTemplate.tpl_sql ns) = [].
+Proof.
+  unfold LogqlTemplate.tpl_sql. destruct (LogqlTemplate.tpl_fmt ns 0) as [f a]. cbn [escans flat_map app].
+  rewrite app_nil_r. induction a as [|x r IH]; [reflexivity | cbn [map flat_map escans app]; exact IH].
+Qed.
 Lemma json_parser_noselect labels paths : escans (sql_json_parser labels paths) = [].
 Proof.
   unfold sql_json_parser. cbn [escans flat_map app]. rewrite strvs_noselect, json_paths_noselect. reflexivity.
@@ -707,7 +713,8 @@ Inductive logp (allow m15 : bool) : planner -> Prop :=
  | lp_topk len top main : logp allow m15 main -> logp allow m15 (PTopKP len top main)
  | lp_quant param dur main : logp allow m15 main -> logp allow m15 (PQuantileP param dur main)
  | lp_stepfix dur main : logp allow m15 main -> logp allow m15 (PStepFixP dur main)
- | lp_m15 f dur : m15 = true -> logp allow m15 (PMetrics15 f dur).
+ | lp_m15 f dur : m15 = true -> logp allow m15 (PMetrics15 f dur)
+ | lp_lfmt t main : logp allow m15 main -> logp allow m15 (PLineFormatP t main).
 
 Section PROC.
   Variable info : string -> tinfo.
@@ -807,7 +814,7 @@ Section PROC.
                    | main Hmain IHmain | main m fin Hmain IHmain
                    | f dur wl main Hmain IHmain | f dur main Hmain IHmain | labels by_ use_ts main Hmain IHmain
                    | f wl main Hmain IHmain | fn v main Hmain IHmain | len top main Hmain IHmain
-                   | param dur main Hmain IHmain | dur main Hmain IHmain | f dur Hm15];
+                   | param dur main Hmain IHmain | dur main Hmain IHmain | f dur Hm15 | t main Hmain IHmain];
       intros st q st' p' Hinv; cbn [process].
     - (* PStreamSelect *)
       intros [= <- <- <-]. split; [apply (stream_select_good info c allow m15 W Htab Hwin) | exact Hinv].
@@ -1080,6 +1087,16 @@ Section PROC.
           unfold bounds. cbn [sc_conj flat_map]. rewrite (types_bounds c). subst d1 d2. reflexivity.
       + apply exprs_parts. constructor; fields_all; cbn [ogood]; try exact I;
           try (apply forall_egood_nil; destruct v; reflexivity); try (apply egood_nil; reflexivity); constructor.
+    - (* PLineFormatP: only the `string` column is rewritten, by an expression that reads no table *)
+      destruct (process main c st) as [[[req st1] main']|] eqn:E1; cbn [bind]; [|discriminate].
+      destruct (IHmain _ _ _ _ Hinv E1) as [Gm I1].
+      destruct (next_id st1) as [i st2] eqn:En.
+      assert (I2 : inv st2).
+      { unfold next_id in En. injection En as _ <-. exact I1. }
+      destruct (LogqlTemplate.tpl_parse t) as [nodes| |]; try discriminate.
+      intros [= <- <- <-]. split; [|exact I2].
+      apply good_set_cols; [exact Gm|]. apply patch_col_egood; [apply good_cols, Gm|].
+      intros x _. apply egood_nil. apply tpl_sql_noselect.
   Qed.
 End PROC.
 
